@@ -104,14 +104,20 @@ func Main() {
 		os.Exit(2)
 	}
 	resp := &Response{Violations: []Violation{}, Samples: []any{}}
-	if err := d(raw, resp); err != nil {
-		fmt.Fprintln(os.Stderr, "driver error:", err)
-		os.Exit(2)
+	derr := d(raw, resp)
+	if derr != nil {
+		// what the driver established before it gave up (violations reproduced on the real code included) is still reported;
+		// exit status 3 tells the check that the run is incomplete
+		fmt.Fprintln(os.Stderr, "driver error:", derr)
+		resp.Note("driver_error", derr.Error())
 	}
 	out, _ := json.Marshal(resp)
 	if err := os.WriteFile(os.Args[3], out, 0644); err != nil {
 		fmt.Fprintln(os.Stderr, err)
 		os.Exit(2)
+	}
+	if derr != nil {
+		os.Exit(3)
 	}
 }
 
